@@ -229,6 +229,88 @@ def o_report_filter(ctx):
                 ctx.claim('summary-shows-model-pka', abs(float(l[21:32]) - g.model_pka) < 0.005)
 
 
+MODEL_PKA = {'ASP': 3.80, 'GLU': 4.50, 'HIS': 6.50, 'CYS': 9.00, 'TYR': 10.00, 'LYS': 10.50, 'ARG': 12.50, 'N+': 8.00, 'C-': 3.20}
+DEFINING = {'ASP': 'CG', 'GLU': 'CD', 'HIS': 'CG', 'CYS': 'SG', 'TYR': 'OH', 'LYS': 'NZ', 'ARG': 'CZ'}
+
+
+def expected_from_text(txt):
+    """executable reading of the statement on a PDB text: {label: (type, bridged)} of the sites that must be reported"""
+    exp, sgs = {}, []
+    start, prev, had_oxt = True, None, False
+    for l in txt.split('\n'):
+        if l.startswith('TER') or l.startswith('MODEL'):
+            start, prev, had_oxt = True, None, False
+            continue
+        if not l.startswith('ATOM'):
+            continue
+        rid = (l[21], int(l[22:26]), l[26])
+        res, an = l[17:20], l[12:16].strip()
+        lab = '%4d %s' % (rid[1], rid[0])
+        if rid != prev:
+            if had_oxt:
+                start = True
+            had_oxt = False
+            if start:
+                exp['N+ ' + lab] = ('N+', False, rid)
+                first_of_chain = rid
+                start = False
+            prev = rid
+        if an == 'OXT':
+            exp['C- ' + lab] = ('C-', False, rid)
+            had_oxt = True
+        if DEFINING.get(res) == an:
+            exp[res + lab] = (res, False, rid)
+            if res == 'CYS':
+                sgs.append((res + lab, float(l[30:38]), float(l[38:46]), float(l[46:54])))
+    for i, a in enumerate(sgs):
+        for b in sgs[i + 1:]:
+            if (a[1] - b[1]) ** 2 + (a[2] - b[2]) ** 2 + (a[3] - b[3]) ** 2 < 2.5 ** 2:
+                for k in (a[0], b[0]):
+                    exp[k] = (exp[k][0], True, exp[k][2])
+    return exp
+
+
+def mk_pipeline_sites(name, axis):
+    """whole pipeline under a symbolic grid translation: exactly the sites of the statement are reported, once, with
+    the tabulated model pKa; a disulfide-bridged cysteine is reported as non-titrating (99.99), any other is titrated"""
+    def body(ctx):
+        from . import micro as M
+        txt = M.text(name)
+        exp = expected_from_text(txt)
+        nterm = {v[2] for v in exp.values() if v[0] == 'N+'}
+        k = ctx.int('shift_thousandths', 0, 2509)
+        t = k / 1000.0 if ctx.native else k / 1000
+
+        def tr(a):
+            if axis == 0:
+                a.x = a.x + t
+            elif axis == 1:
+                a.y = a.y + t
+            else:
+                a.z = a.z + t
+        mol = M.run(txt, transform=tr)
+        rep = M.reported(mol)
+        groups = {}
+        for g in mol.conformations['AVR'].groups:
+            groups.setdefault(g.label.strip(), []).append(g)
+        for lab, (typ, bridged, rid) in exp.items():
+            if typ in ('ASP', 'CYS', 'HIS') and rid in nterm:
+                continue          # side chain of an N-terminal Asp/Cys/His: recorded finding F9 (tracked under C12)
+            ctx.claim('site-reported-once', rep.count(lab) == 1, detail='%r reported %d times (%r)' % (lab, rep.count(lab), rep))
+            gs = [g for g in groups.get(lab.strip(), []) if g.type in (typ, 'COO' if typ in ('ASP', 'GLU', 'C-') else typ)]
+            ctx.claim('site-in-results-once', len(gs) == 1, detail='%r: %d groups' % (lab, len(gs)))
+            for g in gs:
+                ctx.claim('tabulated-model-pka', g.model_pka == MODEL_PKA[typ], detail='%r: %r' % (lab, g.model_pka))
+                if typ == 'CYS':
+                    if bridged:
+                        ctx.claim('bridged-cysteine-not-titrated', (not g.titratable) and eq(g.pka_value, 99.99), detail='%r: titratable=%r pKa=%r' % (lab, g.titratable, g.pka_value))
+                    else:
+                        ctx.claim('free-cysteine-titrated', bool(g.titratable), detail=lab)
+        for lab in rep:
+            ctx.claim('nothing-else-reported', lab in exp, detail='unexpected %r' % lab)
+    return body
+
+
 def obligations(tier):
     I = 'propka/input.py:get_atom_lines_from_pdb'
     G = 'propka/group.py:'
@@ -265,6 +347,17 @@ def obligations(tier):
                    bounds='2 groups, each of 8 kinds (incl. two copies of a ligand carboxylate with identical labels), chain in {A,B}, titratable / exclude-cys flags chosen by fork', max_paths=100000, shards=4,
                    claim_doc='printed exactly once in both sections iff titratable or (CYS and not excluded); model pKa shown', wall_s=170),
     ]
+    fx = [('pair_CYS_CYS_bridge_along_x', 0), ('pair_CYS_CYS_bridge', 0), ('pair_GLU_ARG_TYR', 1), ('nterm_ASP_LYS', 2), ('cterm_PHE', 0)]
+    if tier == 'thorough':
+        fx += [(n, ax) for n in ('pair_CYS_CYS_bridge_along_x', 'pair_CYS_CYS_bridge', 'pep8', 'pair_ASP_ARG', 'pair_LYS_ASP', 'pair_ASP_ASP', 'tri_CYS', 'tri_HIS', 'tri_TYR') for ax in (0, 1, 2)
+               if (n, ax) not in fx]
+    for name, ax in fx:
+        obs.append(Obligation('O4-pipeline-sites[%s,%s]' % (name, 'xyz'[ax]), mk_pipeline_sites(name, ax),
+                              code=['propka/run.py:single (whole pipeline)', 'propka/bonds.py:BondMaker.find_bonds_for_atoms_using_boxes', 'propka/bonds.py:BondMaker.check_distance',
+                                    G + 'Group.setup', 'propka/output.py:get_summary_section'],
+                              bounds='micro-structure %s under a symbolic grid translation t in [0, 2.509] along %s' % (name, 'xyz'[ax]),
+                              claim_doc='exactly the sites of the statement are in the results and in the summary, once, with the tabulated model pKa; bridged cysteines 99.99 / not titrated, free ones titrated',
+                              max_paths=5000, wall_s=170))
     return obs
 
 
